@@ -792,6 +792,18 @@ def draw_numeric(rng, id_, width_delta=0):
     return v if scale == 0 else v / (10.0 ** scale)
 
 
+def draw_assoc(rng, w, inner):
+    """an associated field of w bits: missing, 0, the largest value, the all-ones pattern of each single 204YYY width that
+    makes up w (an ordinary value of the w-bit field), or any value"""
+    cls = rng.choice(['missing', 'zero', 'max', 'mid', 'mid'] + ['inner'] * (3 if inner else 0))
+    if cls == 'missing':
+        return None
+    top = 2 ** w - 2 if w > 1 else 0
+    if cls == 'inner':
+        return min(2 ** rng.choice(inner) - 1, top)
+    return {'zero': 0, 'max': top}.get(cls, rng.randrange(0, top + 1))
+
+
 def draw_string(rng, nbytes):
     cls = rng.choice(['missing', 'full', 'short', 'nul', 'ff', 'text', 'text'])
     if cls == 'missing':
@@ -827,6 +839,13 @@ E2E_TEMPLATES = [
      [('s', 20), ('s', 9), ('s', 20)]),
     ('flags-1bit', [31031, 31031, 31031],
      [('n', 31031), ('n', 31031), ('n', 31031)]),
+    # associated fields: ('a', width in force, widths whose all-ones patterns are ordinary values of the field)
+    ('assoc-204', [204004, 31021, 12001, 1002, 204000, 1001],
+     [('k', 1), ('a', 4, ()), ('n', 12001), ('a', 4, ()), ('n', 1002), ('n', 1001)]),
+    ('assoc-204-nested', [204001, 31021, 204002, 31021, 12001, 204000, 1002, 204000],
+     [('k', 1), ('k', 1), ('a', 3, (1, 2)), ('n', 12001), ('a', 1, ()), ('n', 1002)]),
+    ('assoc-204-nested-wide', [204003, 31021, 204005, 31021, 20003, 12001, 204000, 204000],
+     [('k', 1), ('k', 1), ('a', 8, (3, 5)), ('n', 20003), ('a', 8, (3, 5)), ('n', 12001)]),
 ]
 
 
@@ -851,6 +870,8 @@ def gen_e2e(ctx):
                     row.append(sl[1])
                 elif sl[0] == 's':
                     row.append(draw_string(rng, sl[1]))
+                elif sl[0] == 'a':
+                    row.append(draw_assoc(rng, sl[1], sl[2]))
                 elif sl[0] == 'n0':       # value against the NEW reference value -1000
                     v = rng.choice([None, -1000, -1000 + rng.randrange(0, 2 ** 15 - 1)])
                     row.append(v)
@@ -896,7 +917,7 @@ def run_e2e_cases(ctx, cases, procs):
                     if x == y:
                         continue
                     label = c[2][i][j]
-                    onebit = label == '031031' or (label == '007001' and 201114 in ids)
+                    onebit = label == '031031' or (label == '007001' and 201114 in ids) or (name == 'assoc-204-nested' and j == 4)
                     if onebit and x is None and y in (1, -399):
                         d18 += 1      # uncompressed reads the missing 1-bit field as the value 1
                     elif x == b'' and isinstance(y, bytes) and y and set(y) == {0}:
